@@ -8,6 +8,7 @@ import (
 	"io"
 	"os"
 
+	"github.com/mimecast/dtail/internal/clients"
 	"github.com/mimecast/dtail/internal/clients/handlers"
 	"github.com/mimecast/dtail/internal/color/brush"
 	"github.com/mimecast/dtail/internal/config"
@@ -61,8 +62,10 @@ func init() {
 	}
 	commands["cwrite"] = func(raw json.RawMessage) (interface{}, error) {
 		var c struct {
-			Kind   string   `json:"kind"` // client | mapr | health
+			Kind   string   `json:"kind"` // client | mapr | health | maprreport
 			Chunks []string `json:"chunks"`
+			Query  string   `json:"query"`      // maprreport: the client's query
+			Cumul  bool     `json:"cumulative"` // maprreport: cumulative mode
 		}
 		if err := json.Unmarshal(raw, &c); err != nil {
 			return nil, err
@@ -71,6 +74,21 @@ func init() {
 			config.Client.TermColorsEnable = colors
 			return captureStdout(func() {
 				var w io.Writer
+				if c.Kind == "maprreport" {
+					// the whole client side of a mapreduce session: one handler per server (chunk i goes to
+					// server i mod 2), an interim report after every chunk and the final report
+					mc, err := clients.VerifNewMaprClient(c.Query, c.Cumul)
+					if err != nil {
+						panic("query: " + err.Error())
+					}
+					hs := []io.Writer{mc.VerifHandler("s0"), mc.VerifHandler("s1")}
+					for i, ch := range c.Chunks {
+						hs[i%2].Write(unhx(ch))
+						mc.VerifReport(false)
+					}
+					mc.VerifReport(true)
+					return
+				}
 				switch c.Kind {
 				case "mapr":
 					q, _ := mapr.NewQuery("select count(x) from STATS")
